@@ -85,6 +85,7 @@ type State struct {
 	fwd     map[string]*fwdCache
 	refClass map[string]int8 // syntactic classification of reference terms on this path (fresh / old)
 	stack    map[string]bool // references into non-escaping locals
+	facts    *constFacts     // term/constant (dis)equalities learned from branches
 }
 
 func NewState() *State {
@@ -113,6 +114,7 @@ func (s *State) Clone() *State {
 			n.refClass[k] = v
 		}
 	}
+	n.facts = s.facts.clone()
 	if s.stack != nil {
 		n.stack = make(map[string]bool, len(s.stack))
 		for k, v := range s.stack {
